@@ -237,7 +237,10 @@ pub(crate) struct Sock {
     pub rx_rst: bool,
     pub rst_seen: bool,
     pub read_timeout: Option<u64>,
+    /// read half shut down locally (reads return Ok(0) once queued data is drained, later deliveries are discarded)
     pub local_shutdown: bool,
+    /// write half shut down locally (writes fail with EPIPE, the peer sees EOF)
+    pub local_shutdown_wr: bool,
     pub closed: bool,
     pub peer_reading: bool,
     pub pending_to_peer: Vec<u8>,
@@ -306,6 +309,8 @@ pub(crate) struct State {
     pub listeners: BTreeMap<(IpAddr, u16), Listener>,
     pub default_connect: ConnectBehaviour,
     pub hosts: BTreeMap<String, Vec<IpAddr>>,
+    /// scripted duration of a name lookup, per host (absent = instantaneous)
+    pub dns_latency: BTreeMap<String, u64>,
     pub env: BTreeMap<String, String>,
     pub sched: Tape,
     pub aux: Tape,
@@ -759,6 +764,7 @@ impl Sim {
             listeners: BTreeMap::new(),
             default_connect: ConnectBehaviour::Refuse { latency_ns: 0 },
             hosts: BTreeMap::new(),
+            dns_latency: BTreeMap::new(),
             env: BTreeMap::new(),
             sched: cfg.sched,
             aux: Tape::from_seed(cfg.aux_seed ^ 0x9e3779b97f4a7c15),
@@ -773,6 +779,11 @@ impl Sim {
 
     pub fn add_host(&self, name: &str, addrs: Vec<IpAddr>) {
         self.k.lock().hosts.insert(name.to_ascii_lowercase(), addrs);
+    }
+
+    /// make lookups of `name` take `latency_ns` of simulated time
+    pub fn set_dns_latency(&self, name: &str, latency_ns: u64) {
+        self.k.lock().dns_latency.insert(name.to_ascii_lowercase(), latency_ns);
     }
 
     pub fn add_listener(&self, ip: IpAddr, port: u16, behaviour: ConnectBehaviour, factory: Option<PeerFactory>) {
@@ -965,6 +976,16 @@ pub(crate) fn resolve(host: &str, port: u16) -> std::io::Result<Vec<SocketAddr>>
     let (k, me) = cur();
     let g = k.lock();
     let mut g = yield_point(&k, g, me);
+    if let Some(lat) = g.dns_latency.get(&host.to_ascii_lowercase()).copied() {
+        if lat > 0 {
+            g.history.fault("dns-slow");
+            let dl = g.now.saturating_add(lat);
+            while g.now < dl {
+                let (g2, _) = block(&k, g, me, WaitOn::Timer, Some(dl));
+                g = g2;
+            }
+        }
+    }
     let r = g.hosts.get(&host.to_ascii_lowercase()).cloned();
     let now = g.now;
     let n = r.as_ref().map(|v| v.len()).unwrap_or(0);
@@ -1041,6 +1062,7 @@ pub(crate) fn connect(addr: &SocketAddr, timeout_ns: u64) -> std::io::Result<(K,
                 rst_seen: false,
                 read_timeout: None,
                 local_shutdown: false,
+                local_shutdown_wr: false,
                 closed: false,
                 peer_reading: true,
                 pending_to_peer: Vec::new(),
@@ -1161,7 +1183,7 @@ pub(crate) fn sock_write(k: &K, sock: usize, buf: &[u8]) -> std::io::Result<usiz
     }
     loop {
         let s = &mut g.socks[sock];
-        if s.local_shutdown || s.peer_gone {
+        if s.local_shutdown_wr || s.peer_gone {
             g.history.fault("epipe");
             g.log(me, "write-epipe", sock as u64, 0);
             return Err(E::BrokenPipe.into());
@@ -1177,6 +1199,11 @@ pub(crate) fn sock_write(k: &K, sock: usize, buf: &[u8]) -> std::io::Result<usiz
         if s.faults.max_write > 0 && s.faults.max_write < n {
             n = s.faults.max_write;
             g.history.fault("short-write");
+        }
+        // one write call never moves more than the send window (as with a real socket buffer)
+        let s = &mut g.socks[sock];
+        if s.faults.window > 0 && s.faults.window < n {
+            n = s.faults.window;
         }
         let s = &mut g.socks[sock];
         if !s.peer_reading {
@@ -1222,17 +1249,27 @@ fn client_eof(g: &mut State, sock: usize) {
     }
 }
 
-pub(crate) fn sock_shutdown(k: &K, sock: usize) {
+pub(crate) fn sock_shutdown(k: &K, sock: usize, rd: bool, wr: bool) {
     let (_, me) = cur();
     let g = k.lock();
     let mut g = yield_point(k, g, me);
-    if !g.socks[sock].local_shutdown {
+    let mut changed = false;
+    if rd && !g.socks[sock].local_shutdown {
         g.socks[sock].local_shutdown = true;
+        changed = true;
+    }
+    if wr && !g.socks[sock].local_shutdown_wr {
+        g.socks[sock].local_shutdown_wr = true;
+        changed = true;
+    }
+    if changed {
         let (t, seq) = (g.now, g.next_seq());
-        g.log(me, "shutdown", sock as u64, 0);
+        g.log(me, "shutdown", sock as u64, (rd as u64) | ((wr as u64) << 1));
         g.conn_ev(sock, ConnEv::Shutdown { t, seq, tid: me });
         g.wake_waiters(&WaitOn::Sock(sock));
-        client_eof(&mut g, sock);
+        if wr {
+            client_eof(&mut g, sock);
+        }
     }
 }
 
